@@ -110,16 +110,19 @@ func sessionC15(r *vk.Run, rng *rand.Rand, idx int) {
 		for i := 0; i < n; i++ {
 			l := fmt.Sprintf("%s%03d %s", tag, i, []string{"alpha", "beta", "gamma", "ab", "x"}[i%5])
 			if i%4 == 3 {
-				l += " " + strings.Repeat("long-tail-", 12) + fmt.Sprintf("end%d", i)
+				l += " " + strings.Repeat(fmt.Sprintf("long-tail%d-", i), 12) + fmt.Sprintf("end%d", i)
 			} else if i%4 == 1 {
 				// lengths around the point where a line stops fitting (window, or window inside a border)
 				want := cols - 7 + (i/4)%7
 				if i%8 == 5 {
 					want -= 4
 				}
+				// (the filler carries the line number every few columns, so that a window cut out of
+				// the middle of one line cannot be mistaken for another line or a header)
 				for len(l) < want {
-					l += string(rune('a' + len(l)%26))
+					l += string(rune('a'+len(l)%26)) + fmt.Sprint(i)
 				}
+				l = l[:max(want, 12)]
 			}
 			out = append(out, l)
 		}
@@ -604,4 +607,11 @@ func sameState(a, b *tty.Status) bool {
 		}
 	}
 	return true
+}
+
+func max(a, b int) int {
+	if a > b {
+		return a
+	}
+	return b
 }
